@@ -23,11 +23,13 @@ type cExpr struct {
 }
 
 type cStmt struct {
-	k     string // skip ; := = op= ++ -- var call if for ret brk cont blk discard panic
+	k     string // skip ; := = op= ++ -- var call if for ret brk cont blk discard panic lbl brkL contL switch case default
 	x     string
 	op    string
 	ty    Kind
-	e     *cExpr // may be nil (var without init, ret without value, for without cond)
+	e     *cExpr // may be nil (var without init, ret without value, for without cond, switch without tag)
+	e2    *cExpr // case: second expression (may be nil)
+	ft    bool   // case: the body ends with fallthrough
 	kids  []*cStmt
 	elseK string // none else elif
 }
@@ -105,6 +107,19 @@ func (e *cExpr) tokens(b *[]string) {
 			a.tokens(b)
 		}
 	}
+}
+
+// mentions: the identifier x occurs in e as a variable (Lean: CompileProofs.mentions).
+func (e *cExpr) mentions(x string) bool {
+	if e.k == "V" && e.x == x {
+		return true
+	}
+	for _, k := range e.kids {
+		if k.mentions(x) {
+			return true
+		}
+	}
+	return false
 }
 
 func tyName(k Kind) string {
@@ -206,6 +221,35 @@ func (s *cStmt) src(b *strings.Builder, checked bool) {
 		b.WriteString("{\n")
 		s.kids[0].src(b, checked)
 		b.WriteString("}\n")
+	case "lbl":
+		fmt.Fprintf(b, "%s:\n", s.x)
+		s.kids[0].src(b, checked)
+	case "brkL":
+		fmt.Fprintf(b, "break %s\n", s.x)
+	case "contL":
+		fmt.Fprintf(b, "continue %s\n", s.x)
+	case "switch":
+		if s.e != nil {
+			fmt.Fprintf(b, "switch %s {\n", s.e.src(checked))
+		} else {
+			b.WriteString("switch {\n")
+		}
+		s.kids[0].src(b, checked)
+		b.WriteString("}\n")
+	case "case": // kids: body, rest
+		if s.e2 != nil {
+			fmt.Fprintf(b, "case %s, %s:\n", s.e.src(checked), s.e2.src(checked))
+		} else {
+			fmt.Fprintf(b, "case %s:\n", s.e.src(checked))
+		}
+		s.kids[0].src(b, checked)
+		if s.ft {
+			b.WriteString("fallthrough\n")
+		}
+		s.kids[1].src(b, checked)
+	case "default":
+		b.WriteString("default:\n")
+		s.kids[0].src(b, checked)
 	default:
 		panic("bad stmt " + s.k)
 	}
@@ -268,6 +312,34 @@ func (s *cStmt) tokens(b *[]string) {
 	case "blk":
 		*b = append(*b, "blk")
 		s.kids[0].tokens(b)
+	case "lbl":
+		*b = append(*b, "lbl", s.x)
+		s.kids[0].tokens(b)
+	case "brkL", "contL":
+		*b = append(*b, s.k, s.x)
+	case "switch":
+		*b = append(*b, "switch")
+		optExprTokens(s.e, b)
+		if s.e != nil && s.e.ty == KInt {
+			*b = append(*b, "int")
+		} else {
+			*b = append(*b, "bool")
+		}
+		s.kids[0].tokens(b)
+	case "case":
+		*b = append(*b, "case")
+		s.e.tokens(b)
+		optExprTokens(s.e2, b)
+		s.kids[0].tokens(b)
+		if s.ft {
+			*b = append(*b, "ft")
+		} else {
+			*b = append(*b, "noft")
+		}
+		s.kids[1].tokens(b)
+	case "default":
+		*b = append(*b, "default")
+		s.kids[0].tokens(b)
 	}
 }
 
@@ -315,18 +387,28 @@ type cVar struct {
 }
 
 type cGen struct {
-	r      *prng.R
-	feat   map[string]int
-	scopes [][]*cVar
-	funcs  []*cFunc // callable
-	cur    *cFunc
-	nvar   int
-	inLoop int
-	budget int
-	depth  int
-	selfOK bool
-	called map[string]bool
-	calls  map[string]map[string]bool // caller -> callees
+	r        *prng.R
+	feat     map[string]int
+	scopes   [][]*cVar
+	funcs    []*cFunc // callable
+	cur      *cFunc
+	nvar     int
+	inLoop   int
+	budget   int
+	depth    int
+	selfOK   bool
+	inSwitch int       // nesting of switch statements (the tag stays on the VM stack: at most 3, see dropItems)
+	brkInner string    // what an unlabeled break leaves: "" / "for" / "switch"
+	lbls     []*cLabel // enclosing for / switch statements that may carry a Go label, innermost last
+	nlbl     int
+	called   map[string]bool
+	calls    map[string]map[string]bool // caller -> callees
+}
+
+type cLabel struct {
+	name  string
+	isFor bool
+	used  bool
 }
 
 func (g *cGen) f(s string) { g.feat["core:"+s]++ }
@@ -347,6 +429,17 @@ func (g *cGen) vars(ty Kind, writable bool) []*cVar {
 		}
 	}
 	return res
+}
+
+func (g *cGen) visible(name string) bool {
+	for _, sc := range g.scopes {
+		for _, v := range sc {
+			if v.name == name {
+				return true
+			}
+		}
+	}
+	return false
 }
 
 func (g *cGen) pick(ty Kind, writable bool) *cVar {
@@ -646,12 +739,29 @@ func (g *cGen) newName(ty Kind) string {
 
 func (g *cGen) stmt() *cStmt {
 	g.budget--
-	w := []int{12, 10, 6, 4, 4, 8, 6, 3, 3, 3, 3, 2}
+	w := []int{12, 10, 6, 4, 4, 8, 6, 3, 3, 3, 3, 2, 4, 3}
 	if g.depth >= 3 {
-		w[5], w[6], w[9] = 2, 1, 0
+		w[5], w[6], w[9], w[12] = 2, 1, 0, 1
 	}
-	if g.inLoop == 0 {
+	if g.inLoop == 0 && g.inSwitch == 0 {
 		w[7] = 0
+	}
+	// nesting of for / switch statements is where break / continue / return have to drop switch tags:
+	// favour a switch inside a loop, a loop inside a switch, and labeled branches once two statements enclose
+	if g.inLoop > 0 && g.depth < 6 {
+		w[12] = 12
+	}
+	if g.inSwitch > 0 && g.depth < 6 {
+		w[6] = 6
+	}
+	if len(g.lbls) >= 2 {
+		w[13] = 8
+	}
+	if g.inSwitch >= 3 {
+		w[12] = 0
+	}
+	if len(g.lbls) == 0 {
+		w[13] = 0
 	}
 	switch g.r.Weighted(w) {
 	case 0: // define
@@ -707,14 +817,46 @@ func (g *cGen) stmt() *cStmt {
 		if g.r.Chance(1, 3) {
 			ty = KBool
 		}
-		name := g.fresh() // never shadows: `var x T = …x…` is the known finding var-decl-shadow-self
-		s := &cStmt{k: "var", x: name, ty: ty}
+		// `var x T = e` may shadow an outer x as long as x does not occur in e (`var x T = …x…` is the known
+		// finding var-decl-shadow-self; the Lean theorems carve out exactly `mentions x e`)
+		s := &cStmt{k: "var", ty: ty}
 		if g.r.Bool() {
 			s.e = g.genExpr(ty, 2)
 			g.f("stmt:var-init")
 		} else {
 			g.f("stmt:var-zero")
 		}
+		name := g.newName(ty)
+		if s.e != nil && s.e.mentions(name) {
+			name = g.fresh()
+		}
+		if s.e != nil && !g.visible(name) && g.r.Chance(1, 2) {
+			// shadow a variable of an enclosing scope (of any type) that the initialiser does not read
+			cur := map[string]bool{}
+			for _, v := range g.scopes[len(g.scopes)-1] {
+				cur[v.name] = true
+			}
+			if len(g.scopes) == 2 { // the body block is the parameters' scope
+				for _, v := range g.scopes[0] {
+					cur[v.name] = true
+				}
+			}
+			var cs []string
+			for _, sc := range g.scopes[:len(g.scopes)-1] {
+				for _, v := range sc {
+					if !cur[v.name] && v.name != "d" && !s.e.mentions(v.name) {
+						cs = append(cs, v.name)
+					}
+				}
+			}
+			if len(cs) > 0 {
+				name = cs[g.r.Intn(len(cs))]
+			}
+		}
+		if s.e != nil && g.visible(name) {
+			g.f("stmt:var-init-shadow")
+		}
+		s.x = name
 		g.decl(&cVar{name: name, ty: ty})
 		return s
 	case 5: // if
@@ -725,11 +867,34 @@ func (g *cGen) stmt() *cStmt {
 	case 7: // break / continue under a condition
 		c := g.genBool(2)
 		k := "brk"
-		if g.r.Bool() {
+		if g.inLoop > 0 && g.r.Bool() {
 			k = "cont"
 		}
 		g.f("stmt:" + k)
+		if g.inSwitch > 0 {
+			g.f("stmt:" + k + "-in-switch")
+		}
 		return &cStmt{k: "if", e: c, kids: []*cStmt{seq([]*cStmt{{k: k}})}, elseK: "none"}
+	case 12:
+		return g.switchStmt()
+	case 13: // labeled break / continue under a condition
+		l := g.lbls[g.r.Intn(len(g.lbls))]
+		if len(g.lbls) > 1 && g.r.Bool() {
+			l = g.lbls[g.r.Intn(len(g.lbls)-1)] // an outer statement
+		}
+		k := "brkL"
+		if l.isFor && g.r.Bool() {
+			k = "contL"
+		}
+		l.used = true
+		g.f("stmt:" + k)
+		if l != g.lbls[len(g.lbls)-1] {
+			g.f("stmt:" + k + "-outer")
+		}
+		if len(g.lbls) >= 3 {
+			g.f("stmt:" + k + "-nest3")
+		}
+		return &cStmt{k: "if", e: g.genBool(2), kids: []*cStmt{seq([]*cStmt{{k: k, x: l.name}})}, elseK: "none"}
 	case 8: // call statement
 		if len(g.funcs) == 0 || (g.inLoop > 0 && !g.r.Chance(1, 4)) {
 			return g.stmtDefault()
@@ -786,6 +951,144 @@ func (g *cGen) ifStmt() *cStmt {
 	return s
 }
 
+// withLabel runs gen with a candidate Go label for the for / switch statement it builds; the label is attached
+// only if a `break L` / `continue L` inside used it (Go rejects unused labels).
+func (g *cGen) withLabel(isFor bool, gen func() *cStmt, wrap func(inner *cStmt, l *cLabel) *cStmt) *cStmt {
+	g.nlbl++
+	l := &cLabel{name: fmt.Sprintf("L%d", g.nlbl), isFor: isFor}
+	g.lbls = append(g.lbls, l)
+	res := gen()
+	g.lbls = g.lbls[:len(g.lbls)-1]
+	return wrap(res, l)
+}
+
+// switchStmt: tagged (int or bool tag) or tagless, 1-3 clauses with 1-2 expressions each, optional default (last),
+// fallthrough at the end of a clause that is not the last one.
+func (g *cGen) switchStmt() *cStmt {
+	s := &cStmt{k: "switch"}
+	// Go rejects duplicate constant cases: boolean case expressions are never constant
+	if g.pick(KInt, false) == nil && g.pick(KBool, false) == nil {
+		return g.stmtDefault()
+	}
+	caseExpr := func() *cExpr {
+		for {
+			if e := g.genBool(2); !e.cst {
+				return e
+			}
+		}
+	}
+	switch g.r.Intn(3) {
+	case 0:
+		g.f("stmt:switch-tagless")
+	case 1:
+		g.f("stmt:switch-bool")
+		s.e = g.genBool(2)
+		if s.e.cst {
+			if v := g.pick(KBool, false); v != nil {
+				s.e = g.useVar(v)
+			} else {
+				s.e = nil
+			}
+		}
+	default:
+		g.f("stmt:switch-int")
+		s.e = g.genInt(2)
+		if s.e.cst {
+			if v := g.pick(KInt, false); v != nil {
+				s.e = g.useVar(v)
+			}
+		}
+		seen := map[uint64]bool{}
+		caseExpr = func() *cExpr {
+			if g.r.Chance(1, 3) {
+				if e := g.genInt(1); !e.cst {
+					return e
+				}
+			}
+			// Go rejects duplicate constant cases
+			for {
+				n := uint64(g.r.Intn(12))
+				if !seen[n] {
+					seen[n] = true
+					return lit(n)
+				}
+			}
+		}
+	}
+	if s.e != nil && s.e.cst { // a constant int tag: Go folds nothing here, but keep the tag a variable read
+		s.e = paren(s.e)
+	}
+	return g.withLabel(false, func() *cStmt {
+		n := g.r.Range(1, 3)
+		hasDef := g.r.Chance(1, 2)
+		var cls []*cStmt
+		g.inSwitch++
+		oldInner := g.brkInner
+		g.brkInner = "switch"
+		g.push() // the switch statement's own scope
+		for i := 0; i < n; i++ {
+			c := &cStmt{k: "case", e: caseExpr()}
+			if g.r.Chance(1, 3) {
+				c.e2 = caseExpr()
+				g.f("stmt:case-2")
+			}
+			body := g.block(g.r.Range(1, 3))
+			c.kids = []*cStmt{body, nil}
+			if (i < n-1 || hasDef) && g.r.Chance(1, 4) {
+				c.ft = true
+				g.f("stmt:fallthrough")
+			} else if g.inLoop > 0 && g.r.Chance(1, 3) {
+				// leave the switch AND the rest of the loop body: the tag must be dropped on the way
+				// (BranchStmt, codegen.go:1435-1439)
+				tail := &cStmt{k: "cont"}
+				if len(g.lbls) > 1 && g.r.Bool() {
+					var fors []*cLabel
+					for _, l := range g.lbls[:len(g.lbls)-1] {
+						if l.isFor {
+							fors = append(fors, l)
+						}
+					}
+					if len(fors) > 0 {
+						l := fors[g.r.Intn(len(fors))]
+						l.used = true
+						tail = &cStmt{k: "contL", x: l.name}
+						if g.r.Chance(1, 3) {
+							tail.k = "brkL"
+						}
+						g.f("stmt:" + tail.k + "-clause-end")
+					}
+				}
+				if tail.k == "cont" {
+					g.f("stmt:cont-clause-end")
+				}
+				c.kids[0] = seq(append(unseq(body), tail))
+			}
+			cls = append(cls, c)
+		}
+		var tail *cStmt = &cStmt{k: "skip"}
+		if hasDef {
+			g.f("stmt:switch-default")
+			tail = &cStmt{k: "default", kids: []*cStmt{g.block(g.r.Range(1, 2))}}
+		}
+		unused := g.pop()
+		g.brkInner = oldInner
+		g.inSwitch--
+		_ = unused
+		for i := len(cls) - 1; i >= 0; i-- {
+			cls[i].kids[1] = tail
+			tail = cls[i]
+		}
+		s.kids = []*cStmt{tail}
+		return s
+	}, func(inner *cStmt, l *cLabel) *cStmt {
+		if l.used {
+			g.f("stmt:labeled-switch")
+			return &cStmt{k: "lbl", x: l.name, kids: []*cStmt{inner}}
+		}
+		return inner
+	})
+}
+
 func (g *cGen) forStmt() *cStmt {
 	n := uint64(g.r.Range(0, 4))
 	loopName, outer := g.scopedName()
@@ -826,7 +1129,14 @@ func (g *cGen) forStmt() *cStmt {
 			&cStmt{k: "if", e: mkBin("gt", &cExpr{k: "V", x: k, ty: KInt}, lit(n), KBool), kids: []*cStmt{seq([]*cStmt{{k: "brk"}})}, elseK: "none"})
 	}
 	g.inLoop++
+	g.nlbl++
+	lab := &cLabel{name: fmt.Sprintf("L%d", g.nlbl), isFor: true}
+	g.lbls = append(g.lbls, lab)
+	oldInner := g.brkInner
+	g.brkInner = "for"
 	body := g.block(g.r.Range(1, 4))
+	g.brkInner = oldInner
+	g.lbls = g.lbls[:len(g.lbls)-1]
 	g.inLoop--
 	if len(bodyPrefix) > 0 {
 		body = seq(append(bodyPrefix, unseq(body)...))
@@ -834,9 +1144,13 @@ func (g *cGen) forStmt() *cStmt {
 	s.kids = append(s.kids, body)
 	tail := g.pop()
 	res := s
+	if lab.used {
+		g.f("stmt:labeled-for")
+		res = &cStmt{k: "lbl", x: lab.name, kids: []*cStmt{s}}
+	}
 	if len(pre) != 0 || len(tail) != 0 {
 		// the fuel counter lives in an enclosing block
-		all := append(pre, s)
+		all := append(pre, res)
 		all = append(all, tail...)
 		res = &cStmt{k: "blk", kids: []*cStmt{seq(all)}}
 	}
@@ -871,6 +1185,10 @@ func (g *cGen) function(f *cFunc, budget int) {
 	g.budget = budget
 	g.depth = 0
 	g.inLoop = 0
+	g.inSwitch = 0
+	g.lbls = nil
+	g.nlbl = 0
+	g.brkInner = ""
 	var ss []*cStmt
 	hasD := len(f.params) > 0 && f.params[len(f.params)-1] == "d"
 	if hasD {
